@@ -658,7 +658,6 @@ func c11PerTableState(c *Ctx) {
 // storedFieldsAll lists every struct field selected on an address path.
 func storedFieldsAll(p []PE) []*types.Var { return pathFields(p) }
 
-
 // C11.R5: the number of arguments of a method invocation is read from the
 // method's flags byte in more than one place (parsing a call inside a deferred
 // block, resolving calls after the table is loaded, printing the tree). All of
